@@ -296,7 +296,7 @@ func extractPipeline() (string, error) {
 			return "", fmt.Errorf("convertStringToFieldValue not emitted")
 		}
 		sw := findSwitch(fd)
-		var rows []string
+		var rows, bases []string
 		defaultErr := false
 		for _, c := range sw.Body.List {
 			cc := c.(*ast.CaseClause)
@@ -308,6 +308,13 @@ func extractPipeline() (string, error) {
 						if len(call.Args) > 0 {
 							if bl, ok := call.Args[len(call.Args)-1].(*ast.BasicLit); ok {
 								bits = bl.Value
+							}
+						}
+						// ParseInt / ParseUint(value, BASE, bits): the base argument, as written
+						if (parser == "ParseInt" || parser == "ParseUint") && len(call.Args) == 3 {
+							for _, e := range cc.List {
+								k := strings.TrimSuffix(strings.TrimPrefix(exprString(e), "protoreflect."), "Kind")
+								bases = append(bases, fmt.Sprintf("(%s, %s)", leanStr(strings.ToLower(k)), leanStr(srcOf(call.Args[1]))))
 							}
 						}
 					}
@@ -328,6 +335,55 @@ func extractPipeline() (string, error) {
 		}
 		sort.Strings(rows)
 		fmt.Fprintf(&b, "/-- convertStringToFieldValue: kind ↦ (strconv parser or identity, bit size). -/\ndef convertTable : List (String × String × String) := [%s]\ndef convertDefaultIsError : Bool := %v\n", strings.Join(rows, ", "), defaultErr)
+		sort.Strings(bases)
+		fmt.Fprintf(&b, "/-- the BASE argument of every integer conversion, as written in the emitted code. -/\ndef convertBases : List (String × String) := [%s]\n", strings.Join(bases, ", "))
+	}
+	// 4b. bindQueryParams: which occurrences of a parameter are converted
+	{
+		fd := findFunc(f, "bindQueryParams")
+		if fd == nil {
+			return "", fmt.Errorf("bindQueryParams not emitted")
+		}
+		lookup, listRange, listArg, singleArg := "", "", "", ""
+		ast.Inspect(fd.Body, func(n ast.Node) bool {
+			switch x := n.(type) {
+			case *ast.AssignStmt:
+				if len(x.Lhs) == 1 && exprString(x.Lhs[0]) == "values" && len(x.Rhs) == 1 {
+					lookup = srcOf(x.Rhs[0])
+				}
+			case *ast.IfStmt:
+				if srcOf(x.Cond) == "field.IsList()" {
+					ast.Inspect(x.Body, func(m ast.Node) bool {
+						if rs, ok := m.(*ast.RangeStmt); ok {
+							// every loop of the branch (a second, inner one would re-cut the occurrences)
+							if listRange != "" {
+								listRange += " ; "
+							}
+							listRange += srcOf(rs.X)
+						}
+						if call, ok := m.(*ast.CallExpr); ok && exprString(call.Fun) == "convertStringToFieldValue" && len(call.Args) > 0 && listArg == "" {
+							listArg = srcOf(call.Args[0])
+						}
+						return true
+					})
+					if x.Else != nil {
+						ast.Inspect(x.Else, func(m ast.Node) bool {
+							if call, ok := m.(*ast.CallExpr); ok && exprString(call.Fun) == "convertStringToFieldValue" && len(call.Args) > 0 && singleArg == "" {
+								singleArg = srcOf(call.Args[0])
+							}
+							return true
+						})
+					}
+					return false
+				}
+			}
+			return true
+		})
+		if lookup == "" || listRange == "" || listArg == "" || singleArg == "" {
+			return "", fmt.Errorf("bindQueryParams: unexpected shape (lookup %q, list range %q, element %q, singular %q)", lookup, listRange, listArg, singleArg)
+		}
+		fmt.Fprintf(&b, "/-- bindQueryParams: where the occurrences of a parameter come from, what a `repeated` field ranges over, what each element conversion and the singular conversion are given. -/\n")
+		fmt.Fprintf(&b, "def queryValuesLookup : String := %s\ndef queryListRange : String := %s\ndef queryListElemArg : String := %s\ndef querySingularArg : String := %s\n", leanStr(lookup), leanStr(listRange), leanStr(listArg), leanStr(singleArg))
 	}
 	// 5. header validators: type switch and format switch
 	for _, fn := range []string{"validateHeaderValue", "validateStringHeader"} {
